@@ -371,10 +371,19 @@ def run(m: Model, r: Report, tier: str) -> None:
         bad = truth_table(path_condition(ep.node, reg[0]), {"self.artifacts_dir": [None, "DIR"]}, lambda a: a["self.artifacts_dir"] is not None)
         r.check(not bad, "R9", f"{ep.qualname}#log-condition", f"the log handler is registered on {bad}", loc=ep.loc)
     # (g) the run meta row is inserted before the guarded region
-    ins_st = [i for i, s_ in enumerate(ep.node.body) if isinstance(s_, ast.Expr) and "self._db_insert_run_meta()" in ast.unparse(s_)]
-    tri = [i for i, s_ in enumerate(ep.node.body) if s_ is tr]
-    r.check(len(ins_st) == 1 and tri and ins_st[0] < tri[0], "R9", f"{ep.qualname}#run-meta-inserted",
-            "the run meta row must be inserted unconditionally before the guarded region (its completion in the finally relies on it)", loc=ep.loc)
+    # (g) the database is opened and the run meta row inserted unconditionally, before run(), and - like the pre-hook - inside the guarded region: the property's
+    # lifecycle points include 'pre-hook' and 'db open', a failure there (database of another schema version, not a database at all) must be mapped to an exit code and
+    # followed by META.json, log close, post-hook and lock release like any other failure
+    ins_calls = [c_ for c_ in ast.walk(ep.node) if isinstance(c_, ast.Call) and ast.unparse(c_.func) == "self._db_insert_run_meta"]
+    run_calls_ = [c_ for c_ in ast.walk(tr) if isinstance(c_, ast.Call) and ast.unparse(c_.func) == "self.run"]
+    in_try_body = lambda c_: any(c_ is x for st_ in tr.body for x in ast.walk(st_))  # noqa: E731
+    direct = lambda c_: any(isinstance(st_, ast.Expr) and any(c_ is x for x in ast.walk(st_)) for st_ in tr.body)  # noqa: E731
+    r.check(len(ins_calls) == 1 and len(run_calls_) == 1 and in_try_body(ins_calls[0]) and direct(ins_calls[0]) and ins_calls[0].lineno < run_calls_[0].lineno, "R9",
+            f"{ep.qualname}#run-meta-inserted", "the run meta row must be inserted unconditionally, before run(), inside the try whose finally does the bookkeeping: a failure "
+            "while opening the database otherwise escapes entry_point (no exit code mapping, no META.json, log handler left open, lock held)", loc=ep.loc)
+    pre_calls = [c_ for c_ in hook_calls if any("PRE" in ast.unparse(a_) for a_ in c_.args)]
+    r.check(len(pre_calls) == 1 and in_try_body(pre_calls[0]) and len(run_calls_) == 1 and pre_calls[0].lineno < run_calls_[0].lineno, "R9", f"{ep.qualname}#pre-hook-guarded",
+            "the pre-hook must run before run() inside the guarded region (an exception out of it is a failure of this run like any other)", loc=ep.loc)
     # (h) the lock is taken iff a lock file is configured
     acq_st = [s_ for s_ in ast.walk(ep.node) if isinstance(s_, ast.Expr) and "self._aquire_flock()" in ast.unparse(s_)]
     if len(acq_st) == 1:
@@ -485,13 +494,26 @@ def run(m: Model, r: Report, tier: str) -> None:
     r.check("config.model_dump_json()" in ast.unparse(dbq.node), "R7", f"{dbq.qualname}#config-dump",
             "the database copy of the config is not the full model_dump_json()", loc=dbq.loc)
 
-    # advisory: statements between resource creation and the guarded try
+    # a database that cannot be used (not a database, other schema version) is a failure of 'db open': connect() gives the connection back before it raises -
+    # a half-open connection keeps its worker thread, and with it the process, alive after entry_point has returned its exit code
+    dbc = m.require_function(f"{HANDLER}.DBHandler.connect")
+    opens = [n for n in walk_no_nested(dbc.node) if isinstance(n, ast.Assign) and ast.unparse(n.targets[0]) == "self.connection" and "connect(" in ast.unparse(n.value)]
+    inits = [n for n in walk_no_nested(dbc.node) if isinstance(n, ast.Expr) and isinstance(n.value, ast.Await) and
+             any(k in ast.unparse(n) for k in ("self.connection.execute", "self.connection.executescript", "self.check_version"))]
+    if len(opens) != 1 or len(inits) < 3:
+        raise AnalysisError(f"{dbc.qualname}: connection creation / initialisation statements not found")
+    guarded_init = [t_ for t_ in ast.walk(dbc.node) if isinstance(t_, ast.Try) and all(any(i_ is x for b_ in t_.body for x in ast.walk(b_)) for i_ in inits) and
+                    any((h_.type is None or any(k in ast.unparse(h_.type) for k in ("BaseException", "Exception"))) and
+                        any("self.connection.close()" in ast.unparse(s_) for s_ in h_.body) and isinstance(h_.body[-1], ast.Raise) for h_ in t_.handlers)]
+    r.check(bool(guarded_init), "R4", f"{dbc.qualname}#closes-on-failed-open", "when the initialisation of a freshly opened connection fails (PRAGMAs, schema, version check) connect() "
+            "raises with the connection still open: nobody can close it any more (disconnect() asserts a started queue), its thread keeps the process from terminating", loc=dbc.loc)
+    # advisory: statements between lock acquisition and the guarded try that touch the file system
     body = ep.node.body
     ti = next(i for i, s in enumerate(body) if s is tr)
-    risky = [s for s in body[:ti] if any(isinstance(x, ast.Call) and ast.unparse(x.func) in ("self._db_insert_run_meta", "self.run_hook") for x in ast.walk(s))]
+    risky = [s for s in body[:ti] if any(isinstance(x, ast.Call) and ast.unparse(x.func) in ("self.prepare_artifacts_dir", "add_zst_log_handler") for x in ast.walk(s))]
     for s in risky:
         r.advisory("R2", f"{ep.qualname}#pre-try:{ast.unparse(s).splitlines()[0][:40]}",
-                   "can raise after the artifacts dir / log handler exist but outside the try whose finally writes META.json "
-                   "(outside the property's 'setup, main or teardown' scope)", f"{ep.module.relpath}:{s.lineno}")
+                   "can raise (file system) after the lock was taken but outside the try whose finally does the bookkeeping "
+                   "(not one of the property's lifecycle points)", f"{ep.module.relpath}:{s.lineno}")
     r.assumptions += ["asyncio/pydantic/zstandard behave as documented", "subprocess.run(check=True) raises only CalledProcessError for a failing hook"]
     r.not_decided += ["file contents and zstd stream integrity", "exceptions raised before the guarded region (DB open, pre-hook)"]
